@@ -23,6 +23,7 @@ __all__ = [
     'DaemonTask',
 ]
 
+import os
 import sys
 import queue
 import logging
@@ -445,8 +446,11 @@ def threadsafe_async_cache(
     _func: _AsyncFunc = func
     del cache, func
 
-    # 1 loop + event per input key currently caching
-    events: Dict[Tuple[Any, ...], Tuple[aio.AbstractEventLoop, aio.Event]] = {}
+    # 1 loop + event per input key currently caching, and the process
+    # in which that is happening: a forked child inherits this table but
+    # not the threads and tasks behind its entries
+    events: Dict[Tuple[Any, ...],
+                 Tuple[aio.AbstractEventLoop, aio.Event, int]] = {}
     # Ensure thread safety while creating events. Reentrant because the
     # finally block below also runs when an abandoned call is garbage
     # collected, which can happen in a thread that is holding the lock
@@ -477,8 +481,9 @@ def threadsafe_async_cache(
                 try:
                     # Try to get the loop + event of the loop currently
                     # caching the value
-                    caching_loop, event = events[key]
-                    if (caching_loop.is_closed()
+                    caching_loop, event, pid = events[key]
+                    if (pid != os.getpid()
+                            or caching_loop.is_closed()
                             or not caching_loop.is_running()):
                         raise KeyError  # Invalidate loop
                 except KeyError:
@@ -486,7 +491,7 @@ def threadsafe_async_cache(
                     # the value and provide an event for others to wait
                     caching_loop = aio.get_running_loop()
                     event = aio.Event()
-                    events[key] = caching_loop, event
+                    events[key] = caching_loop, event, os.getpid()
                     do_caching = True
                 else:
                     do_caching = False  # Need to wait for other loop
@@ -506,7 +511,7 @@ def threadsafe_async_cache(
                         # to take over caching if this failed. Another
                         # loop may already have taken over (this loop was
                         # stopped mid-computation): only remove our own
-                        if events.get(key, (None, None))[1] is event:
+                        if events.get(key, (None, None, None))[1] is event:
                             del events[key]
                 return result
 
